@@ -4,6 +4,7 @@
 //! rebuilds without that accessor and the obligations that need it are skipped (and reported as skipped).
 use super::*;
 
+#[cfg(verif_acc_trycalc)]
 pub fn try_calculate_pub<Model>(
     model: &Model,
     weighted_data: nalgebra::VectorView<Model::ScalarType, Dyn>,
